@@ -116,13 +116,14 @@ def run_level_job(job):
 def run(tier='quick', seed=0, only=None, verbose=False):
     rep = Report('C09', tier, seed, 'translation_validation', functions_encoded=FUNCS + [
         'pyrates.ir.circuit.CircuitIR._add_edge_buffer / _collect_delays_from_edges (concrete)',
-        'emitted ring-buffer code: buf[:] = roll(buf, 1[, 1]); buf[...,0] = x; read slot D (symx, one inductive step)'],
+        'emitted ring-buffer code: buf[:] = roll(buf, 1[, 1]); buf[...,0] = x; read slot D (symx, one inductive step)',
+        'BaseBackend._solve_euler / _solve_heun driving the emitted function (symx, K = 4/6 steps)'],
         bounds=dict(dt='1/4', delays='round(d/dt) in 2..4 (quick) / 2..6 (thorough), incl. non-multiples of dt',
                     nodes='<=5', edges='<=5', vectorize='True and False'),
         stubs=['numpy library model'],
         assumptions=['reals for floats', 'representation invariant of the ring buffer: old slot j holds the source value '
                      'j+1 steps ago (proved to be re-established by every call)', 'delays rounding to < 2 steps are '
-                     'excluded by the property', 'Connectivity ring buffers: see C16'])
+                     'excluded by the property', 'Connectivity ring buffers: 3 (quick) / 12 (thorough) population models per delay kind here, more in C16'])
     progs = families.fam_discrete_delays_fixed() + families.fam_discrete_delays(seed, n=14 if tier == 'quick' else 150,
                                                                                max_steps=4 if tier == 'quick' else 6)
     if only:
@@ -130,6 +131,18 @@ def run(tier='quick', seed=0, only=None, verbose=False):
     jobs = [dict(key=f"{k}|vec={v}", spec=s, vectorize=v) for k, s in progs for v in (True, False)]
     from .. import tvjobs
     tvjobs.run_tv_jobs(rep, jobs, verbose=verbose, fn=job_fn)
+    # matrix (Connectivity) edges: delayed connections between populations (harness of C16, here the delay kinds only)
+    from . import c16
+    mj = []
+    for kind in ('delay', 'delay2'):
+        for i in range(3 if tier == 'quick' else 12):
+            mj.append(dict(key=f"pop:{kind}:{seed}:{i}|population", kind=kind, seed=seed * 100 + i, build='population',
+                           vectorize=True, spec=None))
+    if only:
+        mj = [j for j in mj if only in j['key']]
+    for j in mj:
+        j['spec'] = c16.explicit_spec(c16.make_model(j['kind'], j['seed']))
+    tvjobs.run_tv_jobs(rep, mj, verbose=verbose, fn=c16.job_fn)
     # run level: kernel x emitted function (the buffers must advance once per STEP under every fixed-step kernel)
     fixed = dict(families.fam_discrete_delays_fixed())
     rj = []
@@ -146,4 +159,6 @@ def run(tier='quick', seed=0, only=None, verbose=False):
                            'run once on symbolic state AND symbolic ring-buffer contents; obligations: buffer invariant '
                            're-established (slot 0 = current source value, slot j = old slot j-1), and per state variable '
                            'emitted derivative == reference with each delayed edge delivering its source round(d/dt) '
-                           'steps ago, undelayed edges the current value')
+                           'steps ago, undelayed edges the current value; run level: BaseBackend._solve_euler/_solve_heun integrate the '
+                           'emitted text for K steps on symbolic state, afterwards every ring buffer holds its source\'s '
+                           'recorded rows shifted by one slot per step')
